@@ -177,6 +177,7 @@ structure World where
   codes : Store Session := []
   nextCode : Nat := 0
   nextNonce : Nat := 0
+  nextState : Nat := 0
 
 structure TokenResponse where
   token : String
@@ -189,6 +190,7 @@ structure TokenResponse where
 def tokName (n : Nat) : String := "tok#" ++ toString n
 def codeName (n : Nat) : String := "code#" ++ toString n
 def nonceName (n : Nat) : String := "on#" ++ toString n
+def stateName (n : Nat) : String := "st#" ++ toString n
 
 /-! ### per-presentation checks (s2s_vptoken.go, validation.go) -/
 
@@ -481,6 +483,46 @@ def authorizeResponse (cfg : Cfg) (w : World) (now : Nat) (r : AuthResp) : World
                       let name := codeName w2.nextCode
                       ({ w2 with codes := w2.codes.put now cfg.codeTtl name session', nextCode := w2.nextCode + 1 },
                        .ok (.code name session'.clientState))
+
+/-- the parameters of an authorization request (after JAR parsing) that `handleAuthorizeRequestFromHolder` reads -/
+structure AuthReq where
+  subject : String
+  redirectURI : String
+  aud : String
+  clientId : String
+  scope : String
+  clientState : String
+  challenge : String
+  method : String
+
+structure AuthReqOut where
+  state : String
+  nonce : String
+  owner : String
+  deriving DecidableEq, Repr
+
+/-- `handleAuthorizeRequestFromHolder` + `nextOpenID4VPFlow`, in code order: the authorization-server session
+    (client id, scope, PKCE challenge, required definitions) is created HERE -/
+def authorizeRequest (cfg : Cfg) (w : World) (now : Nat) (r : AuthReq) : World × Res AuthReqOut :=
+  if r.redirectURI = "" then (w, .err "invalid_request/missing-redirect_uri")
+  else if r.aud ≠ cfg.issuerURL r.subject then (w, .err "invalid_request/invalid-audience")
+  else if r.challenge = "" then (w, .err "invalid_request/missing-code_challenge")
+  else if r.method = "" ∨ r.method ≠ "S256" then (w, .err "invalid_request/invalid-code_challenge_method")
+  else
+    match cfg.definitions r.scope with
+    | none => (w, .err "invalid_scope/unsupported-scope")
+    | some defs =>
+      let session : Session :=
+        { clientId := r.clientId, scope := r.scope, ownSubject := r.subject, challenge := r.challenge,
+          method := r.method, clientState := r.clientState, consumer := ⟨defs, [], [], 0⟩ }
+      let state := stateName w.nextState
+      let w1 := { w with states := w.states.put now cfg.stateTtl state session, nextState := w.nextState + 1 }
+      match session.consumer.next with
+      | none => (w1, .panic "nextOpenID4VPFlow:*walletOwnerType")
+      | some owner =>
+        let n := nonceName w1.nextNonce
+        ({ w1 with oauthNonces := w1.oauthNonces.put now cfg.oauthNonceTtl n state, nextNonce := w1.nextNonce + 1 },
+         .ok ⟨state, n, owner⟩)
 
 structure CodeReq where
   subject : String
